@@ -80,7 +80,7 @@ CHECKS = {
         "uncovered": [],
     },
     "C20": {
-        "units": ["dateroll"],
+        "units": ["dateroll", "dual_core", "calendars", "fx", "ppspline"],
         "extra": "cases_engine",
         "cases": [
             {"case": "d3", "where": "rust/calendars/calendar.rs", "what": "NamedCal::from_json of a valid document whose name was altered to an unknown calendar"},
@@ -92,7 +92,8 @@ CHECKS = {
         "assumptions": CHRONO_ASSUMPTIONS,
         "uncovered": [
             "JSON loading in general (serde derive expansions + serde_json) is outside both verifiers' reach: only the three replayed inputs of the genuine defects found there (cases d3, d4: rebuild-on-load data models; d6: NaN in the spline solve) are re-run on every check, as single-input bounded stand-ins",
-            "Ccy::try_new (global interner): not under contract; NamedCal::try_new is under contract in C06, PPSpline::csolve in C15, FXRates::try_new in C09/C10",
+            "Ccy::try_new: the string operations (lower-casing, byte length) and the global interner are abstract; that a byte length of 3 means three ASCII characters is not modelled",
+            "curve constructors (CurveDF::try_new) are not under contract",
         ],
     },
     "C17": {
